@@ -12,7 +12,8 @@ def indices(s: slice, length: int) -> tuple[int, int | None, int]:
     slice made from [start:stop:step] will actually equal the original slice."""
     if s.step is None or s.step > 0:
         return s.indices(length)
-    assert s.step < 0
+    if s.step == 0:
+        raise ValueError("slice step cannot be zero")
     start, stop, step = s.indices(length)
     if stop < 0:
         stop = None
